@@ -3,7 +3,7 @@
 // Bounded-exhaustive enumeration: every function discovered in the os, filepath and fmt modules, the
 // print/printf and shell-style builtins, and every attribute of file objects (from open / create / stdin /
 // stdout) x argument tuples from a marker-carrying pool x execution contexts (top level, spawn, go, cloned VM,
-// imported module and compositions) x OS supplied by risor.WithOS / in the context / both.
+// imported module, builtin callback, risor.Call from the host, and compositions) x OS supplied by risor.WithOS / in the context / both.
 //
 // Every case runs in a worker child process, one at a time, against fresh recording OS instances:
 //  1. the recording OS logged the corresponding call(s) and the script observed its answers;
@@ -44,7 +44,7 @@ import (
 	"verif/internal/ev"
 )
 
-var contexts = []string{"top", "spawn", "go", "clone-call", "clone-run", "import-fn", "import-top", "import-spawn", "clone-spawn", "spawn-spawn", "callback"}
+var contexts = []string{"top", "spawn", "go", "clone-call", "clone-run", "import-fn", "import-top", "import-spawn", "clone-spawn", "spawn-spawn", "callback", "host-call"}
 var supplies = []string{"opt", "ctx", "both"}
 
 // caseIn fully determines one case (replay input).
@@ -68,13 +68,60 @@ func spellings(thorough bool) []int {
 	return []int{0}
 }
 
-// excluded: os.exit with a non-zero code ends the evaluation with a fatal error; inside a `go` goroutine that
-// kills the goroutine before it can hand anything back, so the main script would wait on the channel forever.
-// (exit() and exit(0) in the go context, and the non-zero codes in the other contexts, are enumerated.)
-func excluded(v variant, cx string) bool {
-	return cx == "go" && v.Fn == "os.exit" && v.Want == "ERR"
+// Composed contexts (thorough tier): "g:<loc>:<entry>:<chain>" -
+//
+//	loc   where the functions are defined: main program | imported module
+//	entry how the host enters: eval (risor.Eval) | clone-run | clone-call | host-call (risor.Call)
+//	chain how the case function is reached from the entry function, innermost first, 1..2 links over
+//	      direct call | spawn().wait() | go + channel | callback of a builtin (list.map) | try()
+var (
+	gLocs    = []string{"main", "module"}
+	gEntries = []string{"eval", "clone-run", "clone-call", "host-call"}
+	gLinks   = []string{"direct", "spawn", "go", "callback", "try"}
+)
+
+func composedContexts() []string {
+	var chains []string
+	for _, a := range gLinks {
+		chains = append(chains, a)
+	}
+	for _, a := range gLinks {
+		for _, b := range gLinks {
+			chains = append(chains, a+"+"+b)
+		}
+	}
+	var out []string
+	for _, l := range gLocs {
+		for _, e := range gEntries {
+			for _, c := range chains {
+				out = append(out, "g:"+l+":"+e+":"+c)
+			}
+		}
+	}
+	return out
 }
 
+// excluded: os.exit with a non-zero code ends the evaluation with a fatal error; inside a `go` goroutine that
+// kills the goroutine before it can hand anything back, so the main script would wait on the channel forever.
+// (exit() and exit(0) in the go contexts, and the non-zero codes in the other contexts, are enumerated.)
+func excluded(v variant, cx string) bool {
+	if v.Fn != "os.exit" || v.Want != "ERR" {
+		return false
+	}
+	if cx == "go" {
+		return true
+	}
+	if strings.HasPrefix(cx, "g:") {
+		for _, l := range strings.Split(cx[strings.LastIndex(cx, ":")+1:], "+") {
+			if l == "go" {
+				return true
+			}
+		}
+	}
+	return false
+}
+
+// caseList: named contexts x all spellings, then (thorough) the composed contexts x plain spelling.
 func caseList(thorough bool) []kase {
 	var out []kase
 	for _, k := range spellings(thorough) {
@@ -89,7 +136,55 @@ func caseList(thorough bool) []kase {
 			}
 		}
 	}
+	if thorough {
+		cc := composedContexts()
+		for _, v := range variants(0) {
+			for _, cx := range cc {
+				if excluded(v, cx) {
+					continue
+				}
+				for _, s := range supplies {
+					out = append(out, kase{caseIn{v.Fn, v.ID, 0, cx, s}, v})
+				}
+			}
+		}
+	}
 	return out
+}
+
+// composedSources builds the program for a "g:" context.
+func composedSources(v variant, cx string) (main, mod string) {
+	parts := strings.Split(cx, ":")
+	loc, entry, chain := parts[1], parts[2], strings.Split(parts[3], "+")
+	defs := funcDef("f0", v)
+	for i, link := range chain {
+		inner, name := fmt.Sprintf("f%d", i), fmt.Sprintf("f%d", i+1)
+		var body string
+		switch link {
+		case "direct":
+			body = "  return " + inner + "()\n"
+		case "spawn":
+			body = "  return spawn(" + inner + ").wait()\n"
+		case "go":
+			body = "  ch := chan(1)\n  go func() {\n    r := try(" + inner + ", \"ERR\")\n    ch <- r\n  }()\n  got := <-ch\n  return got\n"
+		case "callback":
+			body = "  return [0].map(func(x) {\n    return " + inner + "()\n  })[0]\n"
+		case "try":
+			body = "  return try(" + inner + ", \"ERR\")\n"
+		}
+		defs += "func " + name + "() {\n" + body + "}\n"
+	}
+	top := fmt.Sprintf("f%d", len(chain))
+	if loc == "module" {
+		mod = defs
+		main = "import vmod\nfunc __case() {\n  return vmod." + top + "()\n}\n"
+	} else {
+		main = defs + "func __case() {\n  return " + top + "()\n}\n"
+	}
+	if entry == "eval" || entry == "clone-run" {
+		main += "__case()\n"
+	}
+	return main, mod
 }
 
 // ---------------------------------------------------------------- running one case (worker side)
@@ -146,6 +241,9 @@ func topSrc(v variant) string {
 
 // sources returns the main program and (for import contexts) the module source.
 func sources(v variant, cx string) (main, mod string) {
+	if strings.HasPrefix(cx, "g:") {
+		return composedSources(v, cx)
+	}
 	switch cx {
 	case "top", "clone-run":
 		return topSrc(v), ""
@@ -157,7 +255,7 @@ func sources(v variant, cx string) (main, mod string) {
 		return funcDef("__case", v) + "[0].map(func(x) {\n  return __case()\n})[0]\n", ""
 	case "go":
 		return funcDef("__case", v) + "__ch := chan(1)\ngo func() {\n  __r := try(__case, \"ERR\")\n  __ch <- __r\n}()\n<-__ch\n", ""
-	case "clone-call":
+	case "clone-call", "host-call":
 		return funcDef("__case", v), ""
 	case "clone-spawn":
 		return funcDef("__inner", v) + "func __case() {\n  return spawn(__inner).wait()\n}\n", ""
@@ -199,7 +297,21 @@ func execute(ctx context.Context, v variant, cx string, opts []risor.Option) (go
 		}
 		return render(o), ""
 	}
+	if strings.HasPrefix(cx, "g:") {
+		cx = map[string]string{"eval": "top", "clone-run": "clone-run", "clone-call": "clone-call", "host-call": "host-call"}[strings.Split(cx, ":")[2]]
+	}
 	switch cx {
+	case "host-call":
+		cfg := risor.NewConfig(opts...)
+		tree, err := rparser.Parse(ctx, main)
+		if err != nil {
+			return "ERR", "parse: " + err.Error()
+		}
+		code, err := compiler.Compile(tree, cfg.CompilerOpts()...)
+		if err != nil {
+			return "ERR", "compile: " + err.Error()
+		}
+		return fin(risor.Call(ctx, code, "__case", nil, opts...))
 	case "clone-call", "clone-spawn", "clone-run":
 		cfg := risor.NewConfig(opts...)
 		tree, err := rparser.Parse(ctx, main)
@@ -323,20 +435,38 @@ func postCheck(o *recOS, p string) string {
 	return ""
 }
 
+func tagOf(idx int) byte { return byte('A' + idx%16) }
+
+func retagVariant(v variant, tag byte) variant {
+	t := func(s string) string { return retag(s, tag) }
+	w := v
+	w.Stmts, w.Expr, w.Want = t(v.Stmts), t(v.Expr), t(v.Want)
+	w.Log, w.Post = nil, nil
+	for _, l := range v.Log {
+		w.Log = append(w.Log, t(l))
+	}
+	for _, p := range v.Post {
+		w.Post = append(w.Post, t(p))
+	}
+	return w
+}
+
 func runCase(idx int, c kase, detail bool) (out caseOut) {
 	out.I = idx
-	v, cx, supply := c.v, c.in.Ctx, c.in.Supply
+	tag := tagOf(idx)
+	v, cx, supply := retagVariant(c.v, tag), c.in.Ctx, c.in.Supply
 	var optOS, ctxOS *recOS
-	base, cancel := context.WithCancel(context.Background())
-	defer cancel()
-	ctx := base
+	// The context is deliberately never cancelled: object.File closes its underlying file from a goroutine when
+	// the context ends, which (under a defect that hands a script the real stdio) would close the worker's real
+	// standard streams at some later, unattributable moment. The worker process is short-lived.
+	ctx := context.Background()
 	opts := []risor.Option{risor.WithConcurrency()}
 	if supply == "opt" || supply == "both" {
-		optOS = newRecOS("opt")
+		optOS = newRecOS("opt", tag)
 		opts = append(opts, risor.WithOS(optOS))
 	}
 	if supply == "ctx" || supply == "both" {
-		ctxOS = newRecOS("ctx")
+		ctxOS = newRecOS("ctx", tag)
 		ctx = ros.WithOS(ctx, ctxOS)
 	}
 	got, errText := execute(ctx, v, cx, opts)
@@ -472,7 +602,8 @@ func observe(cwd, tmp string) realObs {
 }
 
 // realEffects compares the real process with the baseline, reports what changed and restores it.
-func realEffects(b *realObs, src string) []fail {
+func realEffects(b *realObs, tag byte) []fail {
+	own := retag(mark, tag)
 	var out []fail
 	add := func(kind, what, obs string) {
 		out = append(out, fail{"real-" + kind, what, ev.Clip(obs, 400), "real process untouched"})
@@ -482,7 +613,7 @@ func realEffects(b *realObs, src string) []fail {
 		os.Chdir(b.cwd)
 	}
 	for _, kv := range os.Environ() {
-		if strings.Contains(kv, mark) {
+		if strings.Contains(kv, own) {
 			add("env", "a marker variable appeared in the real environment", kv)
 			n, _, _ := strings.Cut(kv, "=")
 			os.Unsetenv(n)
@@ -498,11 +629,8 @@ func realEffects(b *realObs, src string) []fail {
 	for _, d := range []string{"/", b.tmp} {
 		es, _ := os.ReadDir(d)
 		for _, e := range es {
-			if strings.Contains(e.Name(), mark) {
-				// "/" is shared by the parallel workers: an entry is this case's doing only if the case names it
-				if d == "/" && !strings.Contains(src, "/"+e.Name()) {
-					continue
-				}
+			// "/" is shared by the parallel workers: only entries carrying this worker's tag are this case's doing
+			if strings.Contains(e.Name(), own) {
 				p := filepath.Join(d, e.Name())
 				add("file", "a marker-named entry appeared on the real filesystem", p)
 				os.RemoveAll(p)
@@ -530,6 +658,7 @@ func realEffects(b *realObs, src string) []fail {
 // stdio file paths handed down by the parent (VERIF_C12_STDIO = stdin|stdout|stderr), so that a case that closed
 // a real standard stream does not poison the cases after it.
 var stdioPaths []string
+var keepAlive []*os.File
 
 func reopen(fd int, flag int) {
 	if fd >= len(stdioPaths) {
@@ -542,14 +671,25 @@ func reopen(fd int, flag int) {
 	if int(f.Fd()) != fd {
 		syscall.Dup2(int(f.Fd()), fd)
 		f.Close()
+	} else {
+		keepAlive = append(keepAlive, f) // f owns the descriptor now; its finaliser must never run
 	}
+	// The *os.File objects are replaced only when the script closed them (a live one that became unreachable
+	// would be finalised and close the descriptor again).
+	closed := func(f *os.File) bool { _, err := f.Stat(); return err != nil }
 	switch fd {
 	case 0:
-		os.Stdin = os.NewFile(0, "/dev/stdin")
+		if closed(os.Stdin) {
+			os.Stdin = os.NewFile(0, "/dev/stdin")
+		}
 	case 1:
-		os.Stdout = os.NewFile(1, "/dev/stdout")
+		if closed(os.Stdout) {
+			os.Stdout = os.NewFile(1, "/dev/stdout")
+		}
 	case 2:
-		os.Stderr = os.NewFile(2, "/dev/stderr")
+		if closed(os.Stderr) {
+			os.Stderr = os.NewFile(2, "/dev/stderr")
+		}
 	}
 }
 
@@ -597,8 +737,7 @@ func Worker(args []string) {
 		// a recognisable, marker-free syscall so that a strace hit can be attributed to its case
 		os.Lstat("/verif-c12-case-" + strconv.Itoa(i))
 		out := runCase(i, cases[i], only >= 0)
-		m, mod := sources(cases[i].v, cases[i].in.Ctx)
-		out.Fails = append(out.Fails, realEffects(&base, m+mod)...)
+		out.Fails = append(out.Fails, realEffects(&base, tagOf(i))...)
 		b, _ := json.Marshal(out)
 		w.Write(b)
 		w.WriteByte('\n')
@@ -612,10 +751,11 @@ func Worker(args []string) {
 // ---------------------------------------------------------------- parent side
 
 type workerRun struct {
-	outs    []caseOut
-	crashes []crash
-	strace  string // path of the strace output ("" when not traced)
-	err     string
+	outs     []caseOut
+	crashes  []crash
+	timeouts []int
+	strace   string // path of the strace output ("" when not traced)
+	err      string
 }
 
 type crash struct {
@@ -646,7 +786,12 @@ func runWorker(self, scratch string, shard, n int, tier string, only int, traced
 		if only >= 0 {
 			wargs = append(wargs, strconv.Itoa(only))
 		}
-		c, cancel := context.WithTimeout(context.Background(), 7*time.Minute)
+		// the deadline only bounds the enumeration (a case that hangs is skipped and the run is not called exhaustive)
+		limit := 90 * time.Second
+		if tier == "thorough" {
+			limit = 6 * time.Minute
+		}
+		c, cancel := context.WithTimeout(context.Background(), limit)
 		var cmd *exec.Cmd
 		if traced {
 			wr.strace = filepath.Join(dir, fmt.Sprintf("strace-%d.txt", attempt))
@@ -655,9 +800,12 @@ func runWorker(self, scratch string, shard, n int, tier string, only int, traced
 			cmd = exec.CommandContext(c, self, wargs...)
 		}
 		cmd.Dir = sent
+		cmd.SysProcAttr = &syscall.SysProcAttr{Setpgid: true}
+		cmd.Cancel = func() error { return syscall.Kill(-cmd.Process.Pid, syscall.SIGKILL) } // strace and its tracee
 		cmd.Env = append(os.Environ(), "TMPDIR="+tmp, "VERIF_C12_STDIO="+strings.Join([]string{stdin.Name(), stdout.Name(), stderr.Name()}, "|"))
 		cmd.Stdin, cmd.Stdout, cmd.Stderr = stdin, stdout, stderr
 		runErr := cmd.Run()
+		timedOut := c.Err() == context.DeadlineExceeded
 		cancel()
 		stdin.Close()
 		stdout.Close()
@@ -689,7 +837,20 @@ func runWorker(self, scratch string, shard, n int, tier string, only int, traced
 			wr.err = fmt.Sprintf("worker %d ended abnormally outside a case (%v): %s", shard, runErr, ev.Clip(string(et), 400))
 			return wr
 		}
-		wr.crashes = append(wr.crashes, crash{last, fmt.Sprintf("%v: %s", runErr, ev.Clip(strings.TrimSpace(string(et)), 300))})
+		if timedOut {
+			// skip every remaining case of the same function in this shard: one hang must not cost a deadline per case
+			cs := caseList(tier == "thorough")
+			for i := range cs {
+				if i%n == shard && i >= last && cs[i].in.Fn == cs[last].in.Fn && !reported[i] {
+					wr.timeouts = append(wr.timeouts, i)
+					if i != last {
+						skip = append(skip, strconv.Itoa(i))
+					}
+				}
+			}
+		} else {
+			wr.crashes = append(wr.crashes, crash{last, fmt.Sprintf("%v: %s", runErr, ev.Clip(strings.TrimSpace(string(et)), 300))})
+		}
 		skip = append(skip, strconv.Itoa(last))
 		if only >= 0 {
 			return wr
@@ -699,6 +860,7 @@ func runWorker(self, scratch string, shard, n int, tier string, only int, traced
 	return wr
 }
 
+var reTag = regexp.MustCompile(markPrefix + `[A-P]`)
 var reSyscall = regexp.MustCompile(`^\d+\s+(\w+)\(`)
 var reCaseProbe = regexp.MustCompile(`/verif-c12-case-(\d+)"`)
 
@@ -719,7 +881,7 @@ func scanStrace(path string) (hits [][3]string, lines int, err error) {
 			cur = m[1]
 			continue
 		}
-		if strings.Contains(line, mark) {
+		if strings.Contains(line, markPrefix) {
 			name := "?"
 			if m := reSyscall.FindStringSubmatch(line); m != nil {
 				name = m[1]
@@ -849,7 +1011,7 @@ func Check(r *ev.Run, replay string) {
 			seen[o.I] = true
 			c := cases[o.I]
 			r.Eval(1)
-			class := o.Got
+			class := reTag.ReplaceAllString(o.Got, mark)
 			if strings.HasPrefix(c.v.Want, "re:") {
 				class = "<matches pattern>"
 			}
@@ -865,6 +1027,10 @@ func Check(r *ev.Run, replay string) {
 			if len(o.Fails) > 0 {
 				failText[o.I] = o.Fails
 			}
+		}
+		for _, ti := range wr.timeouts {
+			seen[ti] = true
+			r.Cap(fmt.Sprintf("case %d %+v did not finish before the worker deadline; skipped", ti, cases[ti].in))
 		}
 		for _, cr := range wr.crashes {
 			c := cases[cr.idx]
@@ -888,13 +1054,20 @@ func Check(r *ev.Run, replay string) {
 	r.Set("served_by_when_both", served)
 	r.Set("cases", len(cases))
 	r.Set("contexts", contexts)
-	r.Set("excluded_cases", "os.exit(non-zero) x go context: the fatal exit error kills the goroutine before it reports back (6 cases per spelling)")
+	if thorough {
+		r.Set("composed_contexts", fmt.Sprintf("%d: definitions in %v x host entry %v x call chains of 1..2 links over %v (plain spelling)", len(composedContexts()), gLocs, gEntries, gLinks))
+	}
+	r.Set("excluded_cases", "os.exit(3) and os.exit(error) x go context x 3 supplies: the fatal exit error kills the goroutine before it reports back")
 	r.Set("supplies", supplies)
 
-	// Group the failures: a context in which (almost) nothing is mediated is one defect, not one per function.
-	perCtx := map[string]map[string]bool{} // kind|ctx|supply -> set of fns
+	// Group the failures: a context in which (almost) nothing is served by the recording OS is one defect, not
+	// one per function; everything else that fails in that context (answers, real effects) is its consequence.
+	perCtx := map[string]map[string]bool{} // ctx|supply -> set of fns that were not served
 	for k := range fails {
-		key := k.kind + "|" + k.cx + "|" + k.supply
+		if k.kind != "not-served" {
+			continue
+		}
+		key := k.cx + "|" + k.supply
 		if perCtx[key] == nil {
 			perCtx[key] = map[string]bool{}
 		}
@@ -906,6 +1079,7 @@ func Check(r *ev.Run, replay string) {
 		ck = append(ck, key)
 	}
 	sort.Strings(ck)
+	folded := 0
 	for _, key := range ck {
 		fns := perCtx[key]
 		if len(fns)*2 < len(have) {
@@ -913,31 +1087,49 @@ func Check(r *ev.Run, replay string) {
 		}
 		wholesale[key] = true
 		parts := strings.Split(key, "|")
-		var first int = -1
 		var fl []string
 		for fn := range fns {
 			fl = append(fl, fn)
 		}
 		sort.Strings(fl)
+		first := -1
+		also := map[string]bool{}
 		for k, idxs := range fails {
-			if k.kind == parts[0] && k.cx == parts[1] && k.supply == parts[2] && k.fn == fl[0] {
-				first = idxs[0]
+			if k.cx != parts[0] || k.supply != parts[1] {
+				continue
+			}
+			if k.kind != "not-served" {
+				also[k.kind] = true
+				folded += len(idxs)
+				continue
+			}
+			for _, i := range idxs {
+				if first < 0 || i < first {
+					first = i
+				}
 			}
 		}
+		var al []string
+		for a := range also {
+			al = append(al, a)
+		}
+		sort.Strings(al)
 		f0 := failText[first][0]
 		for _, f := range failText[first] {
-			if f.Kind == parts[0] {
+			if f.Kind == "not-served" {
 				f0 = f
 			}
 		}
-		r.Report("context-unmediated:"+parts[0]+":"+parts[1]+":"+parts[2],
-			fmt.Sprintf("%d of %d functions fail with %s in context %s with the OS supplied by %s; e.g. %s: %s", len(fns), len(have), parts[0], parts[1], parts[2], fl[0], f0.What),
+		r.Report("context-unmediated:"+parts[0]+":"+parts[1],
+			fmt.Sprintf("%d of %d functions are not served by the recording OS in context %s with the OS supplied by %s; e.g. %s: %s; consequences in the same context: %s",
+				len(fns), len(have), parts[0], parts[1], cases[first].in.Fn, f0.What, strings.Join(al, " ")),
 			cases[first].in, f0.Observed, f0.Expected)
 	}
+	r.Set("consequent_failures_folded", folded)
 	type gkey struct{ kind, fn string }
 	groups := map[gkey][]fkey{}
 	for k := range fails {
-		if wholesale[k.kind+"|"+k.cx+"|"+k.supply] {
+		if wholesale[k.cx+"|"+k.supply] {
 			continue
 		}
 		g := gkey{k.kind, k.fn}
@@ -1011,7 +1203,7 @@ func Check(r *ev.Run, replay string) {
 		m, mod := sources(cases[i].v, cases[i].in.Ctx)
 		r.Sample(map[string]any{"case": cases[i].in, "main": m, "module": mod, "want": cases[i].v.Want, "log": cases[i].v.Log, "post": cases[i].v.Post})
 	}
-	r.Set("rule", fmt.Sprintf("every discovered function of os (%d attrs), filepath, fmt, the print/printf/errorf/sprintf and shell-style builtins and every attribute of file objects from open/create/stdin/stdout (%d names, %d with templates, %d skipped with reason) x %d argument tuples per spelling x path spellings %v x %d contexts %v x OS supplied by {WithOS, context, both}; each case in a worker process against fresh recording OS instances: expected calls logged in order, answer observed, post-state, real cwd/env/sentinel tree//,TMPDIR/stdio untouched; thorough: all workers under strace -f -e trace=%%file,%%process, no syscall argument contains the marker. distinct = (function, tuple, serving instance, answer) and (context, supply, serving instance) keys",
+	r.Set("rule", fmt.Sprintf("every discovered function of os (%d attrs), filepath, fmt, the print/printf/errorf/sprintf and shell-style builtins and every attribute of file objects from open/create/stdin/stdout (%d names, %d with templates, %d skipped with reason) x %d argument tuples per spelling x path spellings %v x %d contexts %v (thorough adds 240 composed contexts x plain spelling: definitions in main|module x entry by Eval|clone.Run|clone.Call|risor.Call x chains of 1..2 links over direct|spawn|go|callback|try) x OS supplied by {WithOS, context, both}; each case in a worker process against fresh recording OS instances: expected calls logged in order, answer observed, post-state, real cwd/env/sentinel tree//,TMPDIR/stdio untouched; thorough: all workers under strace -f -e trace=%%file,%%process, no syscall argument contains the marker. distinct = (function, tuple, serving instance, answer) and (context, supply, serving instance) keys",
 		len(moduleAttrsOS()), len(names), len(have), len(skipped), len(variants(0)), spellings(thorough), len(contexts), contexts))
 }
 
@@ -1023,7 +1215,7 @@ func sweepReal(r *ev.Run, report bool) {
 	for _, d := range []string{"/", os.TempDir(), cwd} {
 		es, _ := os.ReadDir(d)
 		for _, e := range es {
-			if strings.Contains(e.Name(), mark) {
+			if strings.Contains(e.Name(), markPrefix) {
 				p := filepath.Join(d, e.Name())
 				found = append(found, p)
 				os.RemoveAll(p)
@@ -1031,7 +1223,7 @@ func sweepReal(r *ev.Run, report bool) {
 		}
 	}
 	for _, kv := range os.Environ() {
-		if strings.Contains(kv, mark) {
+		if strings.Contains(kv, markPrefix) {
 			found = append(found, "env "+kv)
 		}
 	}
